@@ -164,6 +164,12 @@ _AMH = CODE2 % ("client/amended.rs AmendedRequest::headers and the accessors bui
                "%s: plain equalities with the model's am_headers / get_all: added headers first in the order added, then the original ones that are not unset; the unset list filters inherited headers only")
 CLAIMED["C16"]["text"] += _AMH % "c16_code_headers, c16_code_headers_len"
 CLAIMED["C13"]["text"] += _AMH % "c13_code_headers, c13_code_headers_get_all"
+_PARS = (" src/parser.rs itself (the bridge from httparse to the http types: error mapping with too-many-headers kept apart, Complete / Partial, the version / status / method conversions, which stored "
+         "fields are copied into the builder and -- in the partial parser -- where the copy stops, what is returned) is translated on every run with httparse's outcome and the fields it filled in as values and "
+         "proved EQUAL to the model's bridge functions on whatever the parser model returns (%s, proofs/Gen2_equiv_parser.v); httparse and the http builder stay modelled.")
+CLAIMED["C05"]["text"] += _PARS % "c05_code_try_parse_response, c05_code_try_parse_partial_response"
+CLAIMED["C20"]["text"] += _PARS % "c20_code_try_parse_response, c20_code_try_parse_partial_response, c20_code_try_parse_request"
+CLAIMED["C20"]["technique"] += " + the code's own functions translated to Gallina on every run and proved equivalent to the model"
 for _p in ("C02", "C03", "C04", "C06", "C07", "C08", "C09", "C10", "C11", "C12", "C13", "C16", "C17"):
     CLAIMED[_p]["technique"] += " + the code's own functions translated to Gallina on every run and proved equivalent to the model"
 
